@@ -189,13 +189,50 @@ def parseFloatLit (s : Str) : Option Num :=
       | some me => some (.float su.1 me.1 me.2)
       | none => none
 
-/-- `_try_make_number` (_misc.py:214-223).  Domain of the model: strings whose non-ASCII characters are
-neither Unicode decimal digits nor Unicode spaces (Python converts those before parsing). -/
+/-! #### what `int()` / `float()` do to a `str` before parsing: `_PyUnicode_TransformDecimalAndSpaceToASCII`
+(Objects/unicodeobject.c): ASCII characters stay; a non-ASCII white-space character (`Py_UNICODE_ISSPACE`) becomes
+' '; a non-ASCII character with a decimal digit value (`Py_UNICODE_TODECIMAL`, category Nd: Arabic-Indic, Devanagari,
+fullwidth, mathematical digits, ...) becomes the ASCII digit of that value; every other non-ASCII character becomes '?'. -/
+
+/-- the first code points of the 67 blocks of ten consecutive non-ASCII decimal digits (Unicode 15.0, the
+`unicodedata` of Python 3.12; compared with `unicodedata.decimal` over all code points by the check) -/
+def uniDigitStarts : List Nat :=
+  [1632, 1776, 1984, 2406, 2534, 2662, 2790, 2918, 3046, 3174, 3302, 3430,
+   3558, 3664, 3792, 3872, 4160, 4240, 6112, 6160, 6470, 6608, 6784, 6800,
+   6992, 7088, 7232, 7248, 42528, 43216, 43264, 43472, 43504, 43600, 44016, 65296,
+   66720, 68912, 69734, 69872, 69942, 70096, 70384, 70736, 70864, 71248, 71360, 71472,
+   71904, 72016, 72784, 73040, 73120, 73552, 92768, 92864, 93008, 120782, 120792, 120802,
+   120812, 120822, 123200, 123632, 124144, 125264, 130032]
+
+/-- `Py_UNICODE_TODECIMAL(c)` of a non-ASCII character (`none`: -1) -/
+def uniDigitVal (c : Char) : Option Nat :=
+  (uniDigitStarts.find? fun s => s ≤ c.toNat && c.toNat < s + 10).map fun s => c.toNat - s
+
+/-- `Py_UNICODE_ISSPACE(c)` of a non-ASCII character (the ASCII ones are `isWs`; U+001C..U+001F are `str.isspace`
+but not stripped by the number parsers) -/
+def isUniSpace (c : Char) : Bool :=
+  let n := c.toNat
+  n == 0x85 || n == 0xa0 || n == 0x1680 || (0x2000 ≤ n && n ≤ 0x200a) || n == 0x2028 || n == 0x2029 ||
+    n == 0x202f || n == 0x205f || n == 0x3000
+
+/-- `_PyUnicode_TransformDecimalAndSpaceToASCII` on one character -/
+def normChar (c : Char) : Char :=
+  if c.toNat < 128 then c
+  else if isUniSpace c then ' '
+  else match uniDigitVal c with
+    | some d => Nat.digitChar d
+    | none => '?'
+
+def pyNorm (s : Str) : Str := s.map normChar
+
+/-- `_try_make_number` (_misc.py:214-223): `int(s)`, else `float(s)`, else the string itself.  Both conversions
+first transform the string with `pyNorm`, so "١٢", "１.５" and a number padded with no-break spaces ARE numeric
+literals. -/
 def tryMakeNumber (s : String) : Num :=
-  match parseIntLit s.toList with
+  match parseIntLit (pyNorm s.toList) with
   | some i => .int i
   | none =>
-    match parseFloatLit s.toList with
+    match parseFloatLit (pyNorm s.toList) with
     | some n => n
     | none => .text s
 
